@@ -38,8 +38,8 @@ type W struct {
 	// send), and/or all coroutines are spawned from inside another coroutine.
 	ArrayPayload bool `json:"array_payload,omitempty"`
 	Nested       bool `json:"nested_spawn,omitempty"`
-	Twin    bool `json:"twin,omitempty"`
-	TwinCap int  `json:"twin_cap,omitempty"`
+	Twin         bool `json:"twin,omitempty"`
+	TwinCap      int  `json:"twin_cap,omitempty"`
 }
 
 func gen(r *verifsim.Rng, tier string) (any, hx.Sched) {
@@ -652,7 +652,7 @@ func checkLinearizable(ops []op, closedObserved bool) porcupine.CheckResult {
 }
 
 var prop = &hx.Prop{
-	ID: "C09", Gen: gen, Decode: decode, Exec: exec, Shrink: shrink,
+	ID: "C09", Gen: gen, Decode: decode, Focus: focus, Exec: exec, Shrink: shrink,
 	Components: map[string]string{
 		"std/channel Channel (Send/Receive/Close/IsClosed/Len/Cap)": "real (instrumented copy of /repo)",
 		"Go chan, runtime channel wake-ups":                         "real",
